@@ -660,10 +660,16 @@ package larking
 // every query parameter in the list handed to the stream.
 // Assumed (the function ranges over a Go map and calls into protoreflect):
 // the result is nil or a freshly allocated slice.
-//@ func (*method).parseQueryParams trusted
+//@ func (*method).parseQueryParams serves C03 C07 trusted partial ghost post inv.init inv.keep
 //@   returns (ps, err)
+//@   requires m != nil
 //@   modifies E$param
-//@   ensures base(ps) == 0 || isfresh(ps)
+//@   ensures [the-result-is-a-list-of-its-own C07] base(ps) == 0 || isfresh(ps)
+//@   assert atcall `fieldPath(` [query-keys-are-resolved-in-the-request-message C03] arg0 == MsgFields(MethodInput(m.desc))
+//@   assert atcall `parseParam(` [a-query-value-is-converted-for-the-field-its-key-names C03] same(arg0, fds)
+//@   ensures [an-unknown-key-is-refused C03] at `return nil, status.Errorf(codes.InvalidArgument, "unknown query param %q", key)` fds == nil && err != nil
+//@   loop 1 invariant base(ps) == 0 || isfresh(ps)
+//@   loop 2 invariant base(ps) == 0 || isfresh(ps)
 
 //@ func (*Mux).serveHTTP serves C07 C09 partial ghost count post inv.init inv.keep dec index slice
 //@   requires m != nil && w != nil && r != nil
@@ -860,9 +866,11 @@ package larking
 //@ spec SortedVars(vs) = forall x :: {at(vs, x)} off(vs) <= x && x < off(vs) + len(vs) - 1 ==> !strlt(at(vs, x+1).name, at(vs, x).name)
 // (assumed: the variable list of a node holds no nil entry - the part of the trie
 // invariant that stays an assumption, see TrieWf)
-//@ func (*path).findVariable trusted pure
+//@ func (*path).findVariable serves C02 C16 trusted pure partial post
 //@   returns (v, ok)
-//@   ensures ok ==> v != nil
+//@   ensures [found-is-usable C02 C16] ok ==> v != nil
+//@   ensures [found-by-its-pattern-text C02] ok ==> v.name == name
+//@   ensures [absent-is-reported-without-a-variable C02] !ok ==> v == nil
 //@ func newPath serves C12 C16
 //@   ensures [trie-stays-walkable C16 C09] old(TrieOk()) ==> TrieOk()
 //@   ensures [fresh-node C12] result != nil && isfresh(result) && result.segments != nil && result.methods != nil && isfresh(result.segments) && isfresh(result.methods) && result.segments != result.methods
